@@ -244,7 +244,13 @@ func (a *AnySchema) checkAndConvert(data any) (any, error) {
 	case reflect.Uint32:
 		fallthrough
 	case reflect.Uint64:
-		return intInputMapper(data, nil)
+		converted, err := intInputMapper(data, nil)
+		if err != nil {
+			// An unsigned value that does not fit: a constraint violation like any other, so that the containers
+			// above report where it was found.
+			return nil, &ConstraintError{Message: err.Error(), Cause: err}
+		}
+		return converted, nil
 	case reflect.Int64:
 		return t.Int(), nil
 	case reflect.Float32:
